@@ -47,14 +47,15 @@ func init() { register("C14", runC14) }
 const c14Workers = 16
 const c14Batch = 250
 
-var c14OptsAnyLen = []json.Options{jsonv1.UnmarshalArrayFromAnyLength(true)}
-
-func c14Opts(o int) []json.Options {
-	if o == 1 {
-		return c14OptsAnyLen
-	}
-	return nil
+// option word: bit 0 UnmarshalArrayFromAnyLength, bit 1 AllowDuplicateNames (as in `arsh unm <o>`).
+var c14OptsTab = [4][]json.Options{
+	nil,
+	{jsonv1.UnmarshalArrayFromAnyLength(true)},
+	{jsontext.AllowDuplicateNames(true)},
+	{jsonv1.UnmarshalArrayFromAnyLength(true), jsontext.AllowDuplicateNames(true)},
 }
+
+func c14Opts(o int) []json.Options { return c14OptsTab[o&3] }
 
 // c14ErrClass classifies an Unmarshal error without looking at message text:
 // dup | range | numsyntax | semantic (any other SemanticError) | syntax | other.
@@ -135,6 +136,7 @@ type c14Case struct {
 	nodes  []*JNode
 	trees  []string
 	clause *c14Clause
+	dup    bool     // AllowDuplicateNames case with injected repeated names
 	want   []string // corpus: expected per step ("" = unchecked)
 
 	steps  []c14Step
@@ -240,6 +242,9 @@ func (w *c14Worker) genRand() *c14Case {
 	if w.r.IntN(4) == 0 {
 		cs.o = 1
 	}
+	if w.r.IntN(7) == 0 { // AllowDuplicateNames on ordinary (mostly duplicate-free) texts: must change nothing
+		cs.o |= 2
+	}
 	k := 2
 	switch x := w.r.IntN(100); {
 	case x < 10:
@@ -255,6 +260,150 @@ func (w *c14Worker) genRand() *c14Case {
 		cs.texts = append(cs.texts, GenJSONFor(w.r, cs.t, 3))
 	}
 	return cs
+}
+
+// genDup builds a case for AllowDuplicateNames (option bit 1): texts that repeat member names — two
+// texts fitted to the type concatenated member-wise at the root (or inside a wrapper the type gives:
+// pointer target, struct field, map entry), plus cloned/re-generated members injected at random depth.
+func (w *c14Worker) genDup() *c14Case {
+	cs := &c14Case{t: w.nextType(), o: 2, dup: true}
+	if w.r.IntN(4) == 0 {
+		cs.o = 3
+	}
+	k := 1 + w.r.IntN(2)
+	for i := 0; i < k; i++ {
+		a, _ := ParseJSONTree(GenJSONFor(w.r, cs.t, 3))
+		b, _ := ParseJSONTree(GenJSONFor(w.r, cs.t, 3))
+		n := c14ConcatDeep(w.r, a, b, 3)
+		for x := w.r.IntN(3); x > 0; x-- {
+			c14InjectDup(w.r, n, 4)
+		}
+		cs.texts = append(cs.texts, n.Render())
+	}
+	return cs
+}
+
+// c14ConcatDeep unites two trees the way a text with repeated names would carry both: objects are
+// concatenated member-wise (names of b repeat names of a), with probability 1/3 recursing into the
+// first pair of same-named object members instead; non-objects: b.
+func c14ConcatDeep(r *rand.Rand, a, b *JNode, depth int) *JNode {
+	if a == nil || b == nil || a.Kind != '{' || b.Kind != '{' {
+		if b == nil {
+			return a
+		}
+		return b
+	}
+	out := &JNode{Kind: '{'}
+	out.Names = append(out.Names, a.Names...)
+	out.Elems = append(out.Elems, a.Elems...)
+	if depth > 0 && r.IntN(3) == 0 {
+		for i, n := range out.Names {
+			if m, cnt := b.Member(n); cnt > 0 && m.Kind == '{' && out.Elems[i].Kind == '{' {
+				out.Elems[i] = c14ConcatDeep(r, out.Elems[i], m, depth-1)
+				break
+			}
+		}
+	}
+	out.Names = append(out.Names, b.Names...)
+	out.Elems = append(out.Elems, b.Elems...)
+	return out
+}
+
+// c14InjectDup appends, to a random object of the tree, a member that repeats an existing name with
+// a clone of that member's value (clone of an object/array: a random sub-list of its members).
+func c14InjectDup(r *rand.Rand, n *JNode, depth int) {
+	if n == nil || depth == 0 {
+		return
+	}
+	if n.Kind == '{' && len(n.Names) > 0 && r.IntN(2) == 0 {
+		i := r.IntN(len(n.Names))
+		c := *n.Elems[i]
+		if (c.Kind == '{' || c.Kind == '[') && len(c.Elems) > 0 {
+			cut := r.IntN(len(c.Elems) + 1)
+			c.Elems = append([]*JNode(nil), c.Elems[:cut]...)
+			if c.Kind == '{' {
+				c.Names = append([]string(nil), c.Names[:cut]...)
+			}
+		}
+		n.Names = append(n.Names, n.Names[i])
+		n.Elems = append(n.Elems, &c)
+		return
+	}
+	if (n.Kind == '{' || n.Kind == '[') && len(n.Elems) > 0 {
+		c14InjectDup(r, n.Elems[r.IntN(len(n.Elems))], depth-1)
+	}
+}
+
+// dupPredicates evaluates, on the implementation only, the two AllowDuplicateNames statements of
+// C14/C08 for text i of the case (prior = value before that step):
+//   - permissive-eq: a text without repeated names gives the same result with and without the option;
+//   - later-wins: an object text {ms…, k:x} gives the same result as the two calls {ms…} then {k:x}.
+func (w *c14Worker) dupPredicates(cs *c14Case, i int, prior reflect.Value) bool {
+	gt := cs.t.GoType()
+	run := func(o int, what string, texts ...[]byte) (reflect.Value, error, bool) {
+		v := reflect.New(gt)
+		v.Elem().Set(DeepCopyValue(prior))
+		for _, t := range texts {
+			err, pan := w.unmarshal(cs, t, v, o, what)
+			if pan {
+				return v, nil, true
+			}
+			if err != nil {
+				return v, err, false
+			}
+		}
+		return v, nil, false
+	}
+	same := func(kind string, v1 reflect.Value, e1 error, v2 reflect.Value, e2 error, extra map[string]any) {
+		bad := ""
+		switch {
+		case (e1 == nil) != (e2 == nil):
+			bad = "one side reports an error"
+		case e1 != nil && c14ErrClass(e1) != c14ErrClass(e2):
+			bad = "different error classes"
+		case e1 == nil && !DeepEqualValues(v1.Elem(), v2.Elem()):
+			bad = "different values"
+		}
+		if bad != "" {
+			extra["mismatch"], extra["step"] = bad, i+1
+			extra["left"], extra["left_err"] = ValueWire(v1.Elem(), cs.t), fmt.Sprint(e1)
+			extra["right"], extra["right_err"] = ValueWire(v2.Elem(), cs.t), fmt.Sprint(e2)
+			w.violate(kind, cs, extra)
+		}
+	}
+	n := cs.nodes[i]
+	if n.DupFree() {
+		v1, e1, pan := run(cs.o, "permissive-eq with option", cs.texts[i])
+		if pan {
+			return false
+		}
+		v2, e2, pan := run(cs.o&^2, "permissive-eq without option", cs.texts[i])
+		if pan {
+			return false
+		}
+		w.hit("permissive-eq-checked")
+		same("permissive-eq", v1, e1, v2, e2, map[string]any{})
+	}
+	if n.Kind == '{' && len(n.Names) >= 1 {
+		last := len(n.Names) - 1
+		head := &JNode{Kind: '{', Names: n.Names[:last], Elems: n.Elems[:last]}
+		tail := &JNode{Kind: '{', Names: n.Names[last:], Elems: n.Elems[last:]}
+		v1, e1, pan := run(cs.o, "later-wins whole", cs.texts[i])
+		if pan {
+			return false
+		}
+		v2, e2, pan := run(cs.o, "later-wins split", head.Render(), tail.Render())
+		if pan {
+			return false
+		}
+		if _, cnt := head.Member(n.Names[last]); cnt > 0 {
+			w.hit("later-wins-checked/repeated-name")
+		} else {
+			w.hit("later-wins-checked/new-name")
+		}
+		same("later-wins", v1, e1, v2, e2, map[string]any{"head": string(head.Render()), "tail": string(tail.Render())})
+	}
+	return true
 }
 
 func c14JoinArray(elems [][]byte) []byte {
@@ -470,6 +619,25 @@ func (w *c14Worker) phaseA(cs *c14Case, lines *[]string) bool {
 		}
 	}
 	k := len(cs.texts)
+
+	// (4) AllowDuplicateNames predicates on the implementation (option bit 1)
+	if cs.o&2 != 0 {
+		for i := range cs.texts {
+			if i > len(cs.snaps) {
+				break
+			}
+			prior := zero
+			if i > 0 {
+				prior = cs.snaps[i-1]
+			}
+			if !w.dupPredicates(cs, i, prior) {
+				return false
+			}
+			if !cs.nodes[i].DupFree() {
+				w.hit("dup-text")
+			}
+		}
+	}
 
 	// (2) merges: adjacent pairs and the whole chain
 	for i := 0; i+1 < k; i++ {
@@ -801,7 +969,7 @@ func (w *c14Worker) clauseStep(cs *c14Case, i int, root reflect.Value, err error
 		} else {
 			w.hit("array-exact")
 		}
-		if expectOK && cs.o == 0 && len(elems) != cl.n {
+		if expectOK && cs.o&1 == 0 && len(elems) != cl.n {
 			expectOK = false
 			if err != nil && c14ErrClass(err) != "semantic" {
 				w.violate(kind, cs, map[string]any{"step": i + 1, "mismatch": "array length mismatch under default options is not reported as a plain SemanticError", "err": err.Error()})
@@ -994,6 +1162,18 @@ func (w *c14Worker) phaseB(cs *c14Case, ans []string) {
 			w.hit("law-vacuous")
 			continue
 		}
+		if cs.o&2 != 0 {
+			// with AllowDuplicateNames texts that repeat names succeed; the merge law is stated (and proved)
+			// for trees without repeated names only — duplicates are covered by the later-wins predicate
+			clean := true
+			for i := m.lo; i <= m.hi; i++ {
+				clean = clean && cs.nodes[i].DupFree()
+			}
+			if !clean {
+				w.hit("law-skipped-dup-texts")
+				continue
+			}
+		}
 		fresh := reflect.New(cs.t.GoType())
 		err, pan := w.unmarshal(cs, mtext, fresh, cs.o, "merged text")
 		if pan {
@@ -1029,6 +1209,9 @@ func (w *c14Worker) phaseB(cs *c14Case, ans []string) {
 	kind := "rand"
 	if cs.clause != nil {
 		kind = cs.clause.kind + "/ctx" + strconv.Itoa(cs.clause.ctx)
+	}
+	if cs.dup {
+		kind = "dup"
 	}
 	if cs.name != "" {
 		kind = "corpus"
@@ -1106,9 +1289,11 @@ func (w *c14Worker) run(n int, sample bool) {
 		for i := 0; i < b; i++ {
 			var cs *c14Case
 			switch x := w.r.IntN(100); {
-			case x < 72:
+			case x < 62:
 				cs = w.genRand()
-			case x < 86:
+			case x < 74:
+				cs = w.genDup()
+			case x < 87:
 				cs = w.genClause("slice")
 			default:
 				cs = w.genClause("array")
@@ -1176,6 +1361,16 @@ func c14Corpus() []*c14Case {
 			`{"b":null,"i":null,"u":null,"f":null,"s":null}`, `{"l":null,"r":null,"m":null}`, `{"p":null,"t":null,"a":null}`),
 		mk("null-root-struct", every, 0, []string{everyFullWire, "ok " + everyZero, ""}, everyFull, `null`, `{"i":1}`),
 		mk("dup-struct", tdStruct(fld("a", tdInt(8))), 0, []string{"Edup"}, `{"a":1,"a":2}`),
+		mk("allowdup-struct-later-wins", tdStruct(fld("a", tdInt(8))), 2, []string{"ok T1 61 i2"}, `{"a":1,"a":2}`),
+		mk("allowdup-map-merges", tdMap(tdMap(tdInt(8))), 2, []string{"ok M1 61 M2 78 i1 79 i2"}, `{"a":{"x":1},"a":{"y":2}}`),
+		mk("allowdup-any-merges", tdAny, 2, []string{"ok I M1 61 I M2 78 I F31 79 I F32"}, `{"a":{"x":1},"a":{"y":2}}`),
+		mk("allowdup-any-kind-clash", tdAny, 2, []string{"Ekind"}, `{"a":1,"a":"x"}`),
+		mk("allowdup-any-slice-replaced", tdAny, 2, []string{"ok I M1 61 I L1 I F33"}, `{"a":[1,2],"a":[3]}`),
+		mk("allowdup-null-then-value", tdAny, 2, []string{"ok I M1 62 In"}, `{"b":null,"b":1,"b":null}`),
+		mk("allowdup-unknown-member-unchecked", tdStruct(fld("a", tdInt(8))), 2, []string{"ok T1 61 i0"}, `{"x":{"q":1,"q":2},"x":3}`),
+		mk("allowdup-wrong-kind-is-kind", tdString, 2, []string{"Ekind"}, `{"q":1,"q":2}`),
+		mk("allowdup-array-surplus-unchecked", tdArray(1, tdInt(8)), 3, []string{"ok R1 i1"}, `[1,{"q":1,"q":2}]`),
+		mk("allowdup-ptr-struct", tdPtr(tdStruct(fld("a", tdInt(8)), fld("l", tdSlice(tdInt(8))))), 2, []string{"ok P T2 61 i1 6c L1 i3"}, `{"a":1,"l":[1,2],"l":[3]}`),
 		mk("dup-map", tdMap(tdInt(8)), 0, []string{"Edup"}, `{"k":1,"k":2}`),
 		mk("dup-any-nested", tdAny, 0, []string{"Edup"}, `{"x":{"y":1,"y":2}}`),
 		mk("dup-in-unknown-member", tdStruct(fld("a", tdInt(8))), 0, []string{"Edup"}, `{"zz":{"y":1,"y":2}}`),
